@@ -1,7 +1,7 @@
 """Scenario families: each runs TLC generation (cached), replays on the real
 library, validates the recorded traces with TLC, and returns what was seen."""
 import concurrent.futures as cf
-import glob, hashlib, json, os, re, shutil, subprocess, time
+import glob, hashlib, json, os, re, shutil, subprocess, threading, time
 
 import vlib
 
@@ -21,10 +21,21 @@ def cache_dir():
     return d
 
 
+_gen_locks = {}
+_gen_guard = threading.Lock()
+
+
 def generate(module, cfg_template, subst, work, name, workers=1, tags=("SCRIPT",), timeout=1800, extra=(), heap="4g"):
     """Run a generation config (cached by spec hash + parameters). Returns (path, count, tlc stats)."""
     key = spec_hash(module + cfg_template + json.dumps(subst, sort_keys=True) + json.dumps(list(extra)))
     dest = os.path.join(cache_dir(), "%s-%s.ndjson" % (name, key))
+    with _gen_guard:
+        lock = _gen_locks.setdefault(dest, threading.Lock())
+    with lock:      # a family and its past variant share one generation
+        return _generate(module, cfg_template, subst, work, name, workers, tags, timeout, extra, heap, dest)
+
+
+def _generate(module, cfg_template, subst, work, name, workers, tags, timeout, extra, heap, dest):
     meta = dest + ".meta"
     if os.path.exists(dest) and os.path.exists(meta):
         m = json.load(open(meta))
@@ -155,11 +166,11 @@ def known_pairs():
     return [{"prop": f["property"], "pred": f["pred"]} for f in k.get("findings", [])]
 
 
-def console_family(work, name, insess, cmds, maxcalls, maxatt, kinds, auth=1, integ=1, codes="Codes3", dupcodes="CodesOk", gen_workers=1, past=None):
+def console_family(work, name, insess, cmds, maxcalls, maxatt, kinds, auth=1, integ=1, codes="Codes3", dupcodes="CodesOk", gen_workers=1, past=None, gen_name=None):
     subst = dict(INSESSION="TRUE" if insess else "FALSE", CMDS=cmds, MAXCALLS=maxcalls, MAXATT=maxatt, KINDS=kinds,
                  AUTH=auth, INTEG=integ, CODES=codes, DUPCODES=dupcodes)
     t0 = time.time()
-    scripts, n, gst = generate("MCGenConsole", "Gen_Console.cfg.tpl", subst, work, name, workers=gen_workers)
+    scripts, n, gst = generate("MCGenConsole", "Gen_Console.cfg.tpl", subst, work, gen_name or name, workers=gen_workers)
     t1 = time.time()
     hdr = json.loads(open(scripts).readline())
     if past is not None:
@@ -178,11 +189,11 @@ def console_family(work, name, insess, cmds, maxcalls, maxatt, kinds, auth=1, in
             "subst": subst}
 
 
-def handshake_family(work, name, family, tier, seed, opts=None, workers=16, metrics=False, race=False, isolate=False, past=None):
+def handshake_family(work, name, family, tier, seed, opts=None, workers=16, metrics=False, race=False, isolate=False, past=None, gen_name=None):
     """GenHandshake scenarios -> replay -> TraceHandshake validation."""
     subst = dict(SEED=seed, FAMILY=family, TIER=tier)
     t0 = time.time()
-    scripts, n, gst = generate("MCGenHandshake", "Gen_Handshake.cfg.tpl", subst, work, name, heap="6g", extra=())
+    scripts, n, gst = generate("MCGenHandshake", "Gen_Handshake.cfg.tpl", subst, work, gen_name or name, heap="6g", extra=())
     t1 = time.time()
     src = scripts
     if opts:
@@ -238,13 +249,13 @@ def with_past(scripts, work, name, variant):
     return dst
 
 
-def walk_family(work, name, module, cfg_tpl, family, tier, seed, workers=16, opts=None, extra_subst=None, race=False, metrics=False, isolate=False, past=None):
+def walk_family(work, name, module, cfg_tpl, family, tier, seed, workers=16, opts=None, extra_subst=None, race=False, metrics=False, isolate=False, past=None, gen_name=None):
     """Scenarios whose expectation travels in `exp` (TraceWalk.tla)."""
     subst = dict(SEED=seed, FAMILY=family, TIER=tier)
     if extra_subst:
         subst.update(extra_subst)
     t0 = time.time()
-    scripts, n, gst = generate(module, cfg_tpl, subst, work, name, heap="6g")
+    scripts, n, gst = generate(module, cfg_tpl, subst, work, gen_name or name, heap="6g")
     t1 = time.time()
     src = scripts
     if opts:
